@@ -1447,6 +1447,16 @@ impl<'a> VisitMut for Rewriter<'a> {
                             });
                         }
                     }
+                    ("and_then", 1) if parse_iter(&m.receiver, false).is_none() => {
+                        // N8d: Result::and_then(closure) (std definition). Only used on Results here; on an Option the unit does not type-check
+                        if let Expr::Closure(c) = strip_paren(&m.args[0]) {
+                            if c.inputs.len() == 1 {
+                                let pat = &c.inputs[0]; let body = &c.body; let r = &m.receiver;
+                                self.n.rule("N8", sp, "Result .and_then(closure) -> match (std definition)");
+                                replacement = Some(parse_quote!(match #r { Ok(__v) => { let #pat = __v; #body }, Err(__e) => Err(__e) }));
+                            }
+                        }
+                    }
                     ("ok_or_else", 1) => {
                         if let Expr::Closure(c) = strip_paren(&m.args[0]) {
                             if c.inputs.is_empty() {
